@@ -328,11 +328,39 @@ impl<T: Send> UnboundedShared<T> {
   }
 
   /// Runs a handoff session if enabled and profitable; callers hold the lock.
+  /// Under the kill-switch (classic wake-one) it passes the notification on
+  /// instead, see [`chain_wake`](Self::chain_wake).
   fn maybe_handoff(&self, c: &mut ConsumerState<T>, wakes: &mut WakeList) {
-    if EAGER_HANDOFF && !c.waiters.is_empty() {
+    if c.waiters.is_empty() {
+      return;
+    }
+    if EAGER_HANDOFF {
       self.handoff_session(c, wakes);
       self.store_waiter_count(c);
+    } else {
+      self.chain_wake(c, wakes);
     }
+  }
+
+  /// Whether an item is available right now; callers hold the lock.
+  fn has_item_locked(&self, c: &ConsumerState<T>) -> bool {
+    !c.reclaimed.is_empty() || unsafe { !(*c.tail).next.load(Ordering::Acquire).is_null() }
+  }
+
+  /// Classic wake-one notifies ONE sleeping waiter per publish, however many
+  /// items the publish carried. Whoever uses up a notification while items
+  /// remain - a receiver that took one item of several, or a notified waiter
+  /// that gave up (cancelled / timed out) without taking any - passes it on to
+  /// the next waiter, so nobody sleeps next to a non-empty queue. Callers hold
+  /// the lock.
+  fn chain_wake(&self, c: &mut ConsumerState<T>, wakes: &mut WakeList) {
+    if c.waiters.is_empty() || !self.has_item_locked(c) {
+      return;
+    }
+    let e = c.waiters.pop_front().unwrap();
+    e.cell.state.store(WAITER_NOTIFIED, Ordering::Release);
+    wakes.0.push(e.wake);
+    self.store_waiter_count(c);
   }
 
   fn register_waiter(&self, c: &mut ConsumerState<T>, wake: WakeHandle, cell: Arc<WaiterCell<T>>) -> u64 {
@@ -562,10 +590,20 @@ impl<T: Send> UnboundedShared<T> {
     if self.remove_waiter(&mut c, id) {
       return Err(RecvTimeoutOutcome::Timeout);
     }
-    drop(c);
     match cell.state.load(Ordering::Acquire) {
-      WAITER_FULFILLED => Ok(cell.take().expect("fulfilled waiter cell must hold an item")),
-      _ => Err(RecvTimeoutOutcome::Timeout),
+      WAITER_FULFILLED => {
+        drop(c);
+        Ok(cell.take().expect("fulfilled waiter cell must hold an item"))
+      }
+      _ => {
+        // Notified (wake-one) but timing out: the notification must not die
+        // with us while items are queued.
+        let mut wakes = WakeList::new();
+        self.chain_wake(&mut c, &mut wakes);
+        drop(c);
+        wakes.fire();
+        Err(RecvTimeoutOutcome::Timeout)
+      }
     }
   }
 
@@ -674,6 +712,9 @@ impl<T: Send> UnboundedShared<T> {
             self.reclaim(&mut c, item, &mut wakes);
           }
           ctx.cell.rearm();
+        } else {
+          // Notified (wake-one) and then cancelled: pass the notification on.
+          self.chain_wake(&mut c, &mut wakes);
         }
       }
     }
